@@ -2,6 +2,7 @@ package memnet
 
 import (
 	"bytes"
+	"context"
 	"errors"
 	"fmt"
 	"io"
@@ -267,6 +268,7 @@ type ServeOpts struct {
 	FailWriteAt int   // fail the k-th ResponseWriter.Write (1-based)
 	FailErr     error // error for failed writes
 	KeepKeys    bool
+	Ctx         context.Context // request context (default: background)
 }
 
 // Serve calls h.ServeHTTP synchronously with a crafted request.
@@ -292,6 +294,9 @@ func Serve(h http.Handler, method, path string, header http.Header, body io.Read
 			kk = textproto.CanonicalMIMEHeaderKey(k)
 		}
 		req.Header[kk] = append(req.Header[kk], v...)
+	}
+	if o.Ctx != nil {
+		req = req.WithContext(o.Ctx)
 	}
 	req.Proto = fmt.Sprintf("HTTP/%d.%d", major, map[int]int{1: 1, 2: 0, 3: 0, 0: 0}[major])
 	req.ProtoMajor, req.ProtoMinor = major, map[int]int{1: 1, 2: 0, 3: 0}[major]
